@@ -916,9 +916,21 @@ func checkValidity(vec *Vec, rep *tc.Reporter) {
 				map[string]interface{}{"string": fmt.Sprintf("%q", b)})
 		}
 	}
-	fn("ValidTopicName", packets.ValidTopicName(true, b), vec.Vn)
-	fn("ValidTopicFilter", packets.ValidTopicFilter(true, b), vec.Vf)
-	fn("ValidV5Topic", packets.ValidV5Topic(b), vec.Vs)
+	// a validator that panics is "not total": reported, never a crash of the driver
+	safe := func(name string, f func() bool, want bool) {
+		defer func() {
+			if x := recover(); x != nil {
+				vv := *vec
+				vv.Bytes = vec.S
+				div(fmt.Sprintf("validity:%s:panic:%s", name, cl), fmt.Sprintf("%s(%q) panicked: %v", name, b, x), &vv,
+					map[string]interface{}{"string": fmt.Sprintf("%q", b)})
+			}
+		}()
+		fn(name, f(), want)
+	}
+	safe("ValidTopicName", func() bool { return packets.ValidTopicName(true, b) }, vec.Vn)
+	safe("ValidTopicFilter", func() bool { return packets.ValidTopicFilter(true, b) }, vec.Vf)
+	safe("ValidV5Topic", func() bool { return packets.ValidV5Topic(b) }, vec.Vs)
 	pk := func(name string, in []int, v int, want bool) {
 		raw := bs(in)
 		res := decode(raw, v, false)
